@@ -840,6 +840,34 @@ func (ch c16) Run(c *core.Ctx) {
 	if c.Begin(70001) && c.NViol() < 10 {
 		ch.realTCP(c)
 	}
+	// a client that has sent its start-up packet and withholds the password: Close returns all the same
+	if c.Begin(70020) && c.NViol() < 10 {
+		e := &c16env{entered: make(chan string, 8)}
+		env := hs.Start(ch.parseFn(e), wire.SessionAuthStrategy(wire.ClearTextPassword(func(ctx context.Context, db, user, pw string) (context.Context, bool, error) {
+			return ctx, true, nil
+		})))
+		cl := hs.NewClient(env.Dial(nil))
+		cl.C.Send(pg.Startup([][2]string{{"user", "stalls"}}))
+		cl.C.Quiesce() // password requested, the server waits
+		done := make(chan struct{})
+		go func() { env.Srv.Close(); env.Srv.Close(); close(done) }()
+		select {
+		case <-done:
+			c.Count("close_with_client_stalled_in_authentication", 1)
+		case <-time.After(30 * time.Second):
+			dump, lib := core.ClassifyHang()
+			if len(lib) > 0 {
+				c.Violate("deadlock", "Close blocks on a connection that is waiting for the client's password: "+strings.Join(lib, "; "), trim(dump, 3000), nil)
+			} else {
+				c.Inconclusive("Close watchdog fired (client stalled in authentication) without a library-blocked goroutine")
+			}
+			c.Finish()
+		}
+		c.Eval("client stalled in authentication", true)
+		cl.C.CloseWrite()
+		cl.C.WaitClosed()
+		<-env.ServeErr
+	}
 	// the accept loop ends before Close for a reason of its own (Accept fails; the listener's owner
 	// closes it): Close afterwards still returns, repeated Close calls too
 	for v := 0; v < 2; v++ {
